@@ -10,6 +10,8 @@ import UralModel.Lemmas.StrSplit
 port is a port.  It is a hypothesis of the theorems, and **proved** here for the hand model
 `pyNetlocAcc` of the CPython accessors (`accLaws_py`).
 -/
+deriving instance DecidableEq for Except
+
 namespace Ural.Fingerprint
 open Ural.Py Ural.UrlParts Ural.Normalize
 
@@ -127,6 +129,32 @@ def accHost (h : Option Str) : Option Str :=
   match h with
   | some x => if x.isEmpty then none else some (hostnameView x)
   | none => none
+
+theorem hostnameView_ne_nil (y : Str) (hy : y ≠ []) : hostnameView y ≠ [] := by
+  cases y with
+  | nil => exact absurd rfl hy
+  | cons a b =>
+    unfold hostnameView
+    rw [splitFirst_cons_s20]
+    by_cases ha : a = '%'
+    · simp [ha, lower]
+    · simp [ha, lower]
+
+/-- the host the second pass reads back is never the empty string -/
+theorem accHost_nonempty (h : Option Str) (x : Str) (hh : accHost h = some x) : x.isEmpty = false := by
+  cases h with
+  | none => simp [accHost] at hh
+  | some y =>
+    simp only [accHost] at hh
+    by_cases hy : y.isEmpty = true
+    · simp [hy] at hh
+    · simp only [hy, Bool.false_eq_true, if_false, Option.some.injEq] at hh
+      have : y ≠ [] := by intro e; subst e; simp at hy
+      have := hostnameView_ne_nil y this
+      rw [hh] at this
+      cases x with
+      | nil => exact absurd rfl this
+      | cons a b => rfl
 
 /-- what the theorems assume of `Env.netlocAcc` -/
 structure AccLaws (acc : Str → Except Err Accessors) : Prop where
